@@ -20,7 +20,7 @@ EXPECT_ENTERED = ['Server.handle', 'Server._get_message_data',
 BOUNDS = {
     'quick': 'session templates: (1) EHLO MAIL RCPT DATA <body> QUIT, (2) two '
              'transactions, (3) RSET/NOOP mix with an empty body, (4) body '
-             'over the SIZE limit, (5) bytes behind QUIT in the same segment, '
+             'over the SIZE limit, (5) a complete line and more bytes behind QUIT in the same segment, '
              '(6) disconnect in the middle of a command line; every body of b<=3 (template 2: 2) '
              'arbitrary bytes (so '
              'dots, CR, LF, empty bodies and command look-alikes occur), '
@@ -95,7 +95,7 @@ def build_stream(tpl, b):
         hi = lo + 6 + b + 3 + 5
     elif tpl == 5:
         # bytes behind QUIT in the same segment (never read)
-        s = pre + body + b'\r\n.\r\nNOOP\r\nQUIT\r\nXY'
+        s = pre + body + b'\r\n.\r\nNOOP\r\nQUIT\r\nNOOP\r\nXY'
         hi = len(s)
     elif tpl == 6:
         # the client disconnects in the middle of a command line
